@@ -92,7 +92,7 @@ def harness_build():
     with Lock("cargo"):
         flags = os.environ.get("RUSTFLAGS", "")
         rc, out, err = sh(
-            ["cargo", "+1.91.1", "build", "--offline", "--quiet"],
+            ["cargo", "+1.91.1", "build", "--offline", "--quiet", "--target-dir", os.path.dirname(os.path.dirname(HARNESS_BIN))],
             cwd=HARNESS_DIR,
             timeout=1500,
             env={"RUSTFLAGS": (flags + " --cfg " + GUARD).strip()},
